@@ -67,4 +67,21 @@ Resolve(series, applied, goal) ==
               [] goal.g \in {"name", "aname"} -> LET ix == IndexOf(series, goal.s) IN
                                        IF ix = 0 \/ ix <= first THEN [ok |-> FALSE, first |-> 0, last |-> 0]
                                        ELSE [ok |-> TRUE, first |-> first, last |-> ix]
+
+(* ---- invocation forms --------------------------------------------------------
+   The command line of one push, as far as it says WHERE and WITH HOW MANY threads:
+     [cwd, d, p, threadsOpt, threadsEnv]   (d, p, threadsOpt, threadsEnv may be "none")
+   Meaning: the working tree is d (relative to cwd) or cwd itself; every name of the
+   series, of .pc and of the patched files is resolved against it and nothing is read
+   or written relative to cwd otherwise; the patch files are in <root>/p or
+   <root>/patches; --threads wins over RAPIDQUILT_THREADS, which wins over the number
+   of CPUs.  Two invocations with the same meaning (and the same other options) are the
+   same push: the drivers exercise them interchangeably (tools/ws.py rotates cwd / -d,
+   patches / -p pd, --threads / RAPIDQUILT_THREADS over the workspaces), so every
+   tool-level check also checks this equivalence. *)
+Meaning(inv) == [root    |-> IF inv.d = "none" THEN inv.cwd ELSE <<inv.cwd, inv.d>>,
+                 patches |-> IF inv.p = "none" THEN "patches" ELSE inv.p,
+                 threads |-> IF inv.threadsOpt # "none" THEN inv.threadsOpt
+                             ELSE IF inv.threadsEnv # "none" THEN inv.threadsEnv ELSE "cpus"]
+SameInvocation(a, b) == Meaning(a) = Meaning(b)
 =============================================================================
